@@ -33,6 +33,7 @@ class Opts:
         self.copy_parents = True       # parents hold only Copy data fields (H26)
         self.greedy_structs = False    # structs never end with an undelimited array
         self.struct_payload = True     # structs may carry a size-delimited payload
+        self.overlap_siblings = False  # siblings constraining different fields / a sole alias with children
         self.__dict__.update(kw)
 
     @staticmethod
@@ -422,10 +423,20 @@ class Gen:
             kf = rng.choice(free) if free else None
             taken = set()
             alias_used = False
-            for ci in range(rng.randint(1, 3)):
+            nkids = rng.randint(1, 3)
+            sole_alias = self.o.overlap_siblings and rng.random() < 0.25
+            if sole_alias:
+                nkids = 1
+            for ci in range(nkids):
                 cn = self.fresh("Ch")
                 cons = []
-                if kf == k1:
+                if self.o.overlap_siblings and free:
+                    # siblings may constrain different fields (their constraint sets can overlap:
+                    # the emitted match is first-match, which the model reproduces)
+                    kf = rng.choice(free)
+                if sole_alias:
+                    pass
+                elif kf == k1:
                     v = rng.randrange(1 << w1)
                     if v not in taken:
                         taken.add(v)
@@ -442,7 +453,7 @@ class Gen:
                     self.features.add("inherit_alias")
                 # an unconstrained child has no children of its own: its descendants' constraints
                 # would overlap with its siblings' (semantically ambiguous description)
-                want_payload = level < depth and rng.random() < 0.6 and bool(cons)
+                want_payload = level < depth and rng.random() < 0.6 and (bool(cons) or sole_alias)
                 if rng.random() < 0.3 and not want_payload:
                     nbytes = rng.choice([1, 2, 3, 4])
                     fs = ["%s: %d" % (self.fresh("s"), 8 * nbytes)]
